@@ -35,7 +35,19 @@ pub fn chrom_name() -> BoxedStrategy<String> {
 
 /// distinct names; sorted bytewise when `sorted`, otherwise in generated (arbitrary) order
 pub fn chrom_names(min: usize, max: usize, sorted: bool) -> BoxedStrategy<Vec<String>> {
-    let set = proptest::collection::btree_set(chrom_name(), min..=max);
+    // now and then two names differ only in the case of their ASCII letters (chrM / CHRm)
+    let set = (proptest::collection::btree_set(chrom_name(), min..=max), prop::bool::weighted(0.12)).prop_map(move |(mut s, twin)| {
+        if twin && s.len() < max.max(2) {
+            if let Some(first) = s.iter().next().cloned() {
+                let flipped: String = first
+                    .chars()
+                    .map(|c| if c.is_ascii_lowercase() { c.to_ascii_uppercase() } else if c.is_ascii_uppercase() { c.to_ascii_lowercase() } else { c })
+                    .collect();
+                s.insert(flipped);
+            }
+        }
+        s
+    });
     if sorted {
         set.prop_map(|s| s.into_iter().collect::<Vec<_>>()).boxed()
     } else {
@@ -376,7 +388,7 @@ pub fn zoom_spec(small: bool) -> BoxedStrategy<ZoomSpec> {
         vec![1, 2, 5, 10, 16, 40, 64, 160, 640, 1000, 2560, 10240, 100_000]
     };
     prop_oneof![
-        3 => (select(vec![1u32, 2, 7, 10, 160]), 0u32..=10).prop_map(|(initial, max)| ZoomSpec::Auto { initial, max }),
+        3 => (select(vec![1u32, 2, 7, 10, 160, 4096, 1 << 20]), prop_oneof![8 => 0u32..=10, 1 => 11u32..=14]).prop_map(|(initial, max)| ZoomSpec::Auto { initial, max }),
         3 => proptest::sample::subsequence(manual_sizes.clone(), 0..=6).prop_map(ZoomSpec::Manual),
         // more levels than the ten header slots UCSC tools use
         1 => proptest::sample::subsequence(manual_sizes.clone(), 11..=manual_sizes.len().min(14)).prop_map(ZoomSpec::Manual),
